@@ -340,6 +340,8 @@ def run(rep, tier, root=None):
         out = []
         for ln in lines:
             ent = [l for l in Ic.loop_log if l[0] == meth.fq and l[1] == ln]
+            if not ent and any(u[0] == meth.fq and u[1] == ln for u in getattr(Ic, "unrolled_log", ())):
+                continue        # a loop over a literal tuple: straight-line code, not part of the iteration space
             if not ent:
                 return None
             it = ent[0][3]
